@@ -36,6 +36,7 @@ type GenCfg struct {
 	Shorthands  bool
 	Dot         bool
 	G           bool // \G
+	NumNames    bool // explicitly numbered groups (?<7>..) (sparse numbering; outside the exact oracle)
 	Balancing   bool // balancing groups (?<a-b>..) (outside the exact oracle)
 	MaxGroups   int
 	MaxRepBound int
@@ -186,6 +187,17 @@ func (g *Gen) newName() string {
 	// reuse an existing name sometimes (duplicate names share one group number)
 	if len(g.nms) > 0 && g.chance(0.15) {
 		return g.nms[g.pick(len(g.nms))]
+	}
+	if g.c.NumNames && g.chance(0.35) {
+		// an explicitly numbered group: numbering becomes sparse and the regexp carries a number -> slot map
+		nm := []string{"3", "7", "12", "2", "5"}[g.pick(5)]
+		for _, x := range g.nms {
+			if x == nm {
+				return nm
+			}
+		}
+		g.nms = append(g.nms, nm)
+		return nm
 	}
 	nm := []string{"n", "m", "k", "w1", "Q"}[len(g.nms)%5]
 	if len(g.nms) >= 5 {
@@ -411,6 +423,67 @@ func (g *Gen) Pattern() *Tree {
 	g.ng, g.nms = 0, nil
 	g.bud = 3 + g.pick(g.c.MaxNodes)
 	return g.alt(g.c.MaxDepth)
+}
+
+// BalPattern: a named group and, later in the sequence, a balancing group that pops it - with nothing else
+// referring to the popped name (the general generator produces this shape only rarely)
+func (g *Gen) BalPattern(rtl bool) *Tree {
+	g.ng, g.nms = 0, nil
+	g.bud = 3 + g.pick(g.c.MaxNodes)
+	nm := g.newName()
+	g.ng++
+	piece := func() *Tree {
+		var kids []*Tree
+		for i := 1 + g.pick(2); i > 0; i-- {
+			l := g.leaf()
+			if g.chance(0.3) {
+				l = Rep(l, g.pick(2), []int{1, 2, -1}[g.pick(3)], g.chance(0.3))
+			}
+			kids = append(kids, l)
+		}
+		if len(kids) == 1 {
+			return kids[0]
+		}
+		return T("cat", kids...)
+	}
+	var open *Tree = Grp(nm, piece())
+	if g.chance(0.3) {
+		open = Rep(open, 1, -1, g.chance(0.2))
+	}
+	var bal *Tree = T("bal", piece())
+	if g.chance(0.5) {
+		bal.N.Nm = "-" + nm
+	} else {
+		bal.N.Nm = "z" + nm + "-" + nm
+	}
+	if g.chance(0.3) {
+		bal = Rep(bal, g.pick(2), -1, g.chance(0.2))
+	}
+	var kids []*Tree
+	add := func(t *Tree) {
+		if t.N.Op == "cat" {
+			kids = append(kids, t.Kids...)
+		} else {
+			kids = append(kids, t)
+		}
+	}
+	if g.chance(0.4) {
+		add(piece())
+	}
+	add(open)
+	if g.chance(0.4) {
+		add(piece())
+	}
+	add(bal)
+	if g.chance(0.4) {
+		add(g.item(1))
+	}
+	if rtl { // a right-to-left pattern meets its items from the right: the opening group has to come last
+		for i, j := 0, len(kids)-1; i < j; i, j = i+1, j-1 {
+			kids[i], kids[j] = kids[j], kids[i]
+		}
+	}
+	return T("cat", kids...)
 }
 
 // ---------------------------------------------------------------------------------------------
